@@ -56,6 +56,8 @@ type Object struct {
 	Fresh func()
 	// Quiesce checks the object after all goroutines have finished ("" = fine).
 	Quiesce func() (key, text string)
+	// Roles: node types whose programs are drawn (default miner and sharder).
+	Roles []string
 	// MaxOps per goroutine (default 6), MaxPrelude sequential set-up operations (default 4).
 	MaxOps, MaxPrelude int
 	// Reps: repetitions of each drawn program (quick, thorough); default 4 / 12.
@@ -102,7 +104,10 @@ func Run(t *testing.T, o Object) {
 		o.RepsThorough = 12
 	}
 	byName := map[string]int{}
-	roles := []string{"miner", "sharder"}
+	roles := o.Roles
+	if len(roles) == 0 {
+		roles = []string{"miner", "sharder"}
+	}
 	weightedFor := map[string][]int{}
 	for i, op := range o.Ops {
 		for _, role := range roles {
